@@ -104,7 +104,14 @@ def method(ex, recv, name, args, kwargs, node):
             cnt = args[2] if len(args) > 2 else kwargs.get("count")
             if cnt == 1:
                 # Python: replace("", x, 1) prepends; SMT-LIB str.replace with empty pattern also prepends
-                return VStr(z3.Replace(t, a, b), kind)
+                r = z3.Replace(t, a, b)
+                # staging (DESIGN 2.1 step 4): when the path condition already holds a decomposition t == a ++ T,
+                # prove and record the consequence replace(t, a, b, 1) == b ++ T as a small lemma of its own
+                for f in ex.pc:
+                    if z3.is_eq(f) and f.arg(0).eq(t) and z3.is_app(f.arg(1)) and f.arg(1).decl().kind() == z3.Z3_OP_SEQ_CONCAT and f.arg(1).num_args() == 2 and f.arg(1).arg(0).eq(a):
+                        ex.lemma("replace-first-on-prefix", r == z3.Concat(b, f.arg(1).arg(1)), using=[f])
+                        break
+                return VStr(r, kind)
             raise Unsupported("str.replace with count != 1")
         if name == "encode" and isinstance(recv, str):
             return recv.encode()
